@@ -43,7 +43,8 @@ def _drive(job):
     rs = np.random.RandomState(seed)
     rec = {'n': n, 'vtype': vtype, 'trunc': trunc, 'trees': [], 'w': [], 'admissible': [], 'err': '', 'src': 'driven'}
     try:
-        trees, w1 = V.forced_build(vtype, spec_trees, _U[n], rs)
+        with V.time_limit(60):          # a builder that does not come back is reported, it does not hang the check
+            trees, w1 = V.forced_build(vtype, spec_trees, _U[n], rs)
         rec['trees'], rec['admissible'] = V.structure(trees)
         if vtype == 'regular':
             rec['w'] = V.rank_matrix(w1)
